@@ -2,7 +2,7 @@ SPECIFICATION Spec
 CONSTANTS
   MaxLen = 4
   Kinds <- TwoKinds
-  Outcomes <- AllSix
+  Outcomes <- AllSeven
   Tags <- NoTags
   MayToggle = TRUE
   MayAbort = TRUE
